@@ -6,6 +6,7 @@ package main
 
 import (
 	"fmt"
+	"path/filepath"
 	"sort"
 	"strings"
 )
@@ -206,10 +207,16 @@ func runC18(c *Ctx) {
 		c.Eval(1)
 		c18Check(c, t, r, "c18dot", true)
 	}
+	// workspaces of two folders: modules come and go in the second folder
+	nTwo := c.N(60, 1500)
+	parallel(nTwo, 14, func(i int) {
+		c.Eval(1)
+		c18SecondFolder(c, root.Fork(uint64(7000000+i)), fmt.Sprintf("c18two%d", i))
+	})
 	c.Finish("directory trees of 3-10 modules in nested directories (duplicate base names, name.lua vs name/init.lua, a native .so, near-miss names) and a main file "+
 		"requiring them with dotted / slashed / suffix-only module strings, require with and without parentheses, dofile with suffix, missing modules and near-misses "+
 		"that only match across a path-component boundary; type-6 diagnostics, go-to-definition and hover on every module string are compared with the documented "+
-		"mapping (R-mod), then one required file is deleted or created (watched-files event) and everything is compared again. distinct_nontrivial = distinct "+
+		"mapping (R-mod), then one required file is deleted or created (watched-files event) and everything is compared again; workspaces of two folders in which uniquely named modules are created and deleted in the second folder (three events each). distinct_nontrivial = distinct "+
 		"(tree, module string, phase) checked", 200)
 }
 
@@ -362,4 +369,121 @@ func c18Check(c *Ctx, t c18Tree, r *Rng, tag string, dotted bool) {
 	}
 	c.Count("file_events", 1)
 	verify(phase)
+}
+
+// c18SecondFolder: a workspace of two folders; the main file lies in the first, the modules it requires (unique base names)
+// come and go in the second. After every create / delete event the type-6 diagnostic is present exactly for the modules that
+// do not exist, and definition on the module string leads to the file exactly when it exists.
+func c18SecondFolder(c *Ctx, r *Rng, tag string) {
+	type mod struct {
+		name, rel string // module string, file relative to the scratch root
+		line      int
+		exists    bool
+	}
+	mods := []*mod{{name: "xmodq", rel: "rootB/xmodq.lua"}, {name: "ymodq", rel: "rootB/sub/ymodq.lua"}, {name: "zmodq", rel: "rootA/lib/zmodq.lua"}}
+	var main strings.Builder
+	for i, m := range mods {
+		m.line = i
+		m.exists = r.Bool()
+		fmt.Fprintf(&main, "local m%d = require(\"%s\")\n", i, m.name)
+	}
+	main.WriteString("print(m0, m1, m2)\n")
+	files := map[string]string{"rootA/main.lua": main.String(), "rootB/other.lua": "local o = 1\nprint(o)\n"}
+	for _, m := range mods {
+		if m.exists {
+			files[m.rel] = "return { v = 1 }\n"
+		}
+	}
+	ws := c.NewWorkspace(files)
+	defer ws.Remove()
+	srv, err := StartServer(ServerOpts{Root: filepath.Join(ws.Root, "rootA"), Folders: []string{filepath.Join(ws.Root, "rootA"), filepath.Join(ws.Root, "rootB")}, Tag: tag, WorkDir: c.Tmp})
+	if err != nil {
+		c.Inconclusive("server failed (C01's business): " + err.Error())
+		if srv != nil {
+			srv.Close()
+		}
+		return
+	}
+	defer srv.Close()
+	mainURI := ws.URI("rootA/main.lua")
+	srv.DidOpen(mainURI, files["rootA/main.lua"])
+	if srv.Fence() != nil {
+		c.Inconclusive("server died on open")
+		return
+	}
+	var history []string
+	verify := func(phase string) bool {
+		view := srv.View()[mainURI]
+		for _, m := range mods {
+			c.Count("module_strings_checked", 1)
+			c.Count("second_folder_module_strings_checked", 1)
+			folder := "second-folder"
+			if strings.HasPrefix(m.rel, "rootA/") {
+				folder = "first-folder"
+			}
+			c.Distinct(fmt.Sprint("second-folder", m.name, m.exists, history))
+			witness := map[string]interface{}{"files": sortedKeys(ws.Files), "main": files["rootA/main.lua"], "module": m.name, "module_file": m.rel, "exists": m.exists, "events": history, "layout": "two-workspace-folders"}
+			has6 := false
+			for _, d := range view {
+				if d.Type == 6 && d.Range.Start.Line == m.line {
+					has6 = true
+				}
+			}
+			if has6 == m.exists {
+				kind := "missing-file-not-reported"
+				if has6 {
+					kind = "existing-file-reported-missing"
+				}
+				c.Report(fmt.Sprintf("type6|%s|module-in-%s|%s|two-workspace-folders", kind, folder, phase),
+					fmt.Sprintf("require(%q): %s exists=%v but type-6 diagnostic present=%v after %v", m.name, m.rel, m.exists, has6, history), witness)
+			}
+			locs, _, err := srv.Definition(mainURI, m.line, len("local m0 = require(\"")+1)
+			if err != nil {
+				c.Inconclusive("server stopped answering (C01's business)")
+				return false
+			}
+			got := ""
+			if len(locs) > 0 {
+				got = ws.Rel(locs[0].URI)
+			}
+			want := ""
+			if m.exists {
+				want = m.rel
+			}
+			if got != want {
+				c.Report(fmt.Sprintf("definition|module-in-%s|%s|two-workspace-folders", folder, phase),
+					fmt.Sprintf("require(%q): definition leads to %q, expected %q after %v", m.name, got, want, history), witness)
+			}
+		}
+		return true
+	}
+	if !verify("initial") {
+		return
+	}
+	for round := 0; round < 3; round++ {
+		m := mods[r.Intn(len(mods))]
+		typ := 1
+		if m.exists {
+			ws.Delete(m.rel)
+			typ = 3
+			history = append(history, "delete "+m.rel)
+		} else {
+			ws.Write(m.rel, "return { v = 1 }\n")
+			history = append(history, "create "+m.rel)
+		}
+		m.exists = !m.exists
+		srv.Notify("workspace/didChangeWatchedFiles", map[string]interface{}{"changes": []interface{}{map[string]interface{}{"uri": ws.URI(m.rel), "type": typ}}})
+		if srv.Fence() != nil {
+			c.Inconclusive("server died on file event (C01's business)")
+			return
+		}
+		c.Count("file_events", 1)
+		phase := "after-create"
+		if typ == 3 {
+			phase = "after-delete"
+		}
+		if !verify(phase) {
+			return
+		}
+	}
 }
